@@ -194,7 +194,8 @@ def lane(planes, j):
     return tuple(bit(p, j) for p in planes)
 
 
-def bp_config(m, opname, k):
+def bp_config(m, opname, k, aliased=False):
+    """aliased=True: no requirement on out vs operands; only the frame and 'result is out' are claimed"""
     nplanes = 3 if m == 8 else 2
     spec = A.OPS[m][opname]
 
@@ -208,7 +209,7 @@ def bp_config(m, opname, k):
         st.assume(And(o >= 0, o < clen))
         for l in locs:
             st.assume(And(l >= 0, l < clen))
-        if opname in ('and', 'or', 'xor'):
+        if opname in ('and', 'or', 'xor') and not aliased:
             for l in locs:
                 st.assume(Not(l == o))          # requires: out is not one of the operands (see DESIGN C02)
         ex.o, ex.locs, ex.mem = o, locs, mem
@@ -225,8 +226,9 @@ def bp_config(m, opname, k):
         yield 'result is out', st.ret is ex.outv
         old = [[SBV(z3.Select(ex.st0.heap[('c', p)], to_int(l))) for p in range(nplanes)] for l in ex.locs]
         new = [SBV(z3.Select(st.heap[('c', p)], to_int(ex.o))) for p in range(nplanes)]
-        for j in range(8):
-            yield f'lane {j} = spec', A.eqv(lane(new, j), spec(*[lane(pl, j) for pl in old]))
+        if not aliased:
+            for j in range(8):
+                yield f'lane {j} = spec', A.eqv(lane(new, j), spec(*[lane(pl, j) for pl in old]))
         x = z3.Int('x')
         for p in range(nplanes):
             yield f'frame:plane {p} other rows unchanged', SBool(z3.ForAll([x], z3.Implies(
@@ -242,7 +244,7 @@ def bp_config(m, opname, k):
         rows = {r: [ev(z3.Select(ex.st0.heap[('c', p)], z3.IntVal(r))) for p in range(nplanes)] for r in set([o] + locs)}
         return 'contracts.logic_c:run_bp', {'m': m, 'op': opname, 'o': o, 'locs': locs,
                                             'rows': {str(r): v for r, v in rows.items()}}
-    return Config(f'{opname}/{k}', {'post': post}, setup, replay)
+    return Config(f'{opname}/{k}' + ('/any-aliasing' if aliased else ''), {'post': post}, setup, replay)
 
 
 def run_bp(args):
@@ -278,7 +280,8 @@ def bp_targets():
         for op in ('buf', 'not'):
             ts.append(Target('logic', f'bp{m}v_{op}', [bp_config(m, op, 1)]))
         for op in ('or', 'and', 'xor'):
-            ts.append(Target('logic', f'bp{m}v_{op}', [bp_config(m, op, k) for k in (1, 2, 3, 4)]))
+            ts.append(Target('logic', f'bp{m}v_{op}', [bp_config(m, op, k) for k in (1, 2, 3, 4)] +
+                             [bp_config(m, op, k, aliased=True) for k in (2, 4)]))
     return ts
 
 
